@@ -293,7 +293,7 @@ func cmdCheck(args []string) int {
 			failed = append(failed, r)
 		}
 		if *verbose {
-			fmt.Printf("%-8s %-7s %6dms %s\n", r.Status, r.Solver, r.Millis, r.Ob.Name)
+			fmt.Printf("%-8s %-7s %6dms %s  [%s]\n", r.Status, r.Solver, r.Millis, r.Ob.Name, r.Ob.Pos)
 		}
 	}
 	violations := 0
@@ -391,7 +391,7 @@ func sanitize(s string) string {
 
 func writeReplay(path, prop string, r Result, P *Program, repo string) {
 	var b strings.Builder
-	fmt.Fprintf(&b, "property: %s\nfailed obligation: %s\nclass: %s\nfunction: %s\nsolver status: %s (%s)\n", prop, r.Ob.Name, r.Ob.Class, r.Ob.Func, r.Status, r.Solver)
+	fmt.Fprintf(&b, "property: %s\nfailed obligation: %s\nclass: %s\nfunction: %s\nat: %s\nsolver status: %s (%s)\n", prop, r.Ob.Name, r.Ob.Class, r.Ob.Func, r.Ob.Pos, r.Status, r.Solver)
 	if r.Ob.Clause != nil {
 		fmt.Fprintf(&b, "clause: %s %s  (%s:%d)\n", r.Ob.Clause.Kind, r.Ob.Clause.Text, r.Ob.Clause.File, r.Ob.Clause.Line)
 	}
